@@ -217,6 +217,11 @@ class Enc:
                 obs.append("OMsg %s" % self.msg(o[2], o[1]))
             elif k == "resp":
                 v = o[1]
+                if isinstance(v, list) and v and v[0] == "exn" and v[1] == "WaitForTimeoutError":
+                    # `wait` on a group in which one status failed while another is still pending: asyncio.wait
+                    # (FIRST_EXCEPTION) returns with pending futures and _wait_for raises WaitForTimeoutError.
+                    # This path is outside the modelled fragment (the oracles still judge the run).
+                    raise Unsupported("wait: a status of the group failed while another was pending (WaitForTimeoutError path)")
                 if isinstance(v, list) and v and v[0] == "exn":
                     obs.append("OResp (RExn %s)" % exn(v[1]))
                 else:
